@@ -241,12 +241,19 @@ Proof. unfold rx_fast, check_known. intros H E. subst p. cbn in H. discriminate.
 Lemma free_slot_harmless c s s0 : harmless c s0 (free_slot s).
 Proof. right; left. reflexivity. Qed.
 
+Lemma ff_key_range pgn src dst tp : forall slots i0, i0 <= ff_key slots pgn src dst tp i0 <= i0 + Z.of_nat (length slots).
+Proof.
+  induction slots as [|s slots IH]; intros i0; cbn [ff_key length]; [lia|].
+  destruct (negb (s_free s) && (s_pgn s =? pgn) && (s_src s =? src) && (s_dst s =? dst) && Bool.eqb (s_tp s) tp); [lia|]. specialize (IH (i0 + 1)). lia.
+Qed.
 (* FindFreeCANMsgIndex: the table stays fine (an evicted slot is cleared), the index is not negative *)
 Lemma find_free_slot_tab c fs g r pgn src dst tp slots1 i :
   find_free_slot r pgn src dst tp = (slots1, i) -> tab_ok c fs (r_slots r) g ->
   tab_ok c fs slots1 g /\ length slots1 = length (r_slots r) /\ 0 <= i.
 Proof.
-  unfold find_free_slot. intros H T. pose proof (ff_scan_spec pgn src dst tp (r_slots r) 0 (nslots r) (now32 r)) as S.
+  unfold find_free_slot. intros H T. cbv zeta in H. pose proof (ff_key_range pgn src dst tp (r_slots r) 0) as KR.
+  destruct (ff_key (r_slots r) pgn src dst tp 0 <? nslots r); [injection H as <- <-; split; [exact T|]; split; [reflexivity|lia]|].
+  pose proof (ff_scan_spec pgn src dst tp (r_slots r) 0 (nslots r) (now32 r)) as S.
   destruct (ff_scan (r_slots r) pgn src dst tp 0 (nslots r) (now32 r)) as [[i' oi] ot]. destruct S as [A B].
   destruct ((i' =? nslots r) && has_elapsed ot c_Max_N2kMsgBuf_Time (now32 r)); inversion H; subst; clear H.
   - split; [apply tab_ok_zset; auto; apply free_slot_harmless|]. split; [apply zset_length|]. unfold nslots in *. destruct B; lia.
@@ -592,6 +599,14 @@ Ltac harmless_tac :=
 Ltac tab_tac T T1 :=
   repeat (apply tab_ok_zset; [|harmless_tac]); first [exact T | exact T1].
 
+Lemma nth_map_lt {A B} (f:A -> B) l k d d' : (k < length l)%nat -> nth k (map f l) d' = f (nth k l d).
+Proof. revert k. induction l as [|x l IH]; intros [|k] H; cbn in *; try lia; auto. apply IH. lia. Qed.
+Lemma tab_ok_map_free c fs l g (cnd:slot -> bool) : tab_ok c fs l g -> tab_ok c fs (map (fun s => if cnd s then free_slot s else s) l) g.
+Proof.
+  intros [L H]. split; [rewrite map_length; exact L|]. rewrite map_length. intros k Hk.
+  rewrite (nth_map_lt _ l k slot0 slot0 Hk). destruct (cnd (nth k l slot0)); [right; left; reflexivity|auto].
+Qed.
+
 Lemma handle_tp_post c p g r pgn src dst len buf h r1 ev idx :
   n_pgn (rn r) = c -> tab_ok c p (r_slots r) g ->
   handle_tp r pgn src dst len buf = (h, r1, ev, idx) ->
@@ -600,7 +615,9 @@ Proof.
   intros Hc T H. unfold handle_tp in H. revert H. crack; intros H; injection H as E0 E1 E2 E3; subst h ev idx; subst r1.
   all: try (split; [reflexivity|split; [intros; discriminate | reflexivity]]).
   all: match goal with T0 : tab_ok _ _ (r_slots ?rr) _ |- _ => pose proof (find_tp_slot_spec src dst (r_slots rr) 0) as FT; cbv zeta in FT; rewrite Z.sub_0_r, Z.add_0_l in FT end.
-  all: try match goal with E: find_free_slot ?rr _ _ _ _ = (?l, ?z) |- _ => destruct (find_free_slot_tab _ _ _ _ _ _ _ _ _ _ E T) as (T1 & L1 & Z0) end.
+  all: try match goal with E: find_free_slot (with_slots ?r0 ?l0) _ _ _ _ = (?l, ?z) |- _ =>
+         let T0 := fresh "T0" in assert (T0 : tab_ok c p (r_slots (with_slots r0 l0)) g) by (cbn [r_slots with_slots]; apply tab_ok_map_free; exact T);
+         destruct (find_free_slot_tab _ _ _ _ _ _ _ _ _ _ E T0) as (T1 & L1 & Z0); cbn [r_slots with_slots] in L1; rewrite map_length in L1 end.
   all: split; [finr|]; split; [intros _ | intros; discriminate].
   all: unfold tp_post; split_rx; norm_rx.
   all: (split; [try congruence|split; [try congruence|split; [try congruence|split; [|split]]]]).
